@@ -12,7 +12,8 @@ import audit_facts
 import server_model as sm
 
 EXPLANATION = """
-(1) No per-worker exclusive bind: every socket bind reachable from a worker thread's entry (the closure passed to spawn inside the worker loop) is made on a
+(0) A started worker reaches its serving loop on its own: nothing reachable from the worker entry waits for another thread (barrier, condition variable, channel
+receive, join, park).  (1) No per-worker exclusive bind: every socket bind reachable from a worker thread's entry (the closure passed to spawn inside the worker loop) is made on a
 builder with reuse_port(true), or binds port 0.  (2) Lock discipline and start-up panics: the configuration MutexGuard taken in the worker prologue is
 dropped before the serving loop, and wherever a function of the server binary locks the same mutex twice the first guard is dropped on every path
 before the second lock() (no self-deadlock during start-up); T-nopanic over Server::new and display_config (the code that runs while the guard is held): every potential panic is
@@ -78,6 +79,18 @@ def run(ctx):
     worker_entries = [e for e in entries if e[2]]
     ctx.check("worker-provisioning", "workers-spawned-in-a-loop", len(worker_entries) == 1, "one worker entry closure, spawned inside a loop",
               "expected exactly one worker spawn inside a loop, found %d" % len(worker_entries), ctx.loc(main))
+
+    # ------------------------------------------------------------------ (0) a started worker gets to its serving loop on its own: nothing reachable from a worker's
+    # entry waits for another thread (a start-up barrier, a condition variable, a channel receive, a join, park).  Whether such a rendezvous ever
+    # completes depends on how many threads take part, which differs between configurations (the reporter thread exists only with client_stats on).
+    WAITS = ("sync::barrier::Barrier", "sync::Barrier", "Condvar", "sync::mpsc", "thread::park", "JoinHandle", "crossbeam_channel", "thread::scope")
+    for (clo, d_, inloop) in worker_entries:
+        reach_w, ext_w, parent_w = P.reach([clo])
+        waits = sorted(e for e in ext_w if any(w in e for w in WAITS))
+        ctx.check("worker-provisioning", "worker-start-waits-for-no-other-thread", not waits,
+                  "nothing reachable from the worker entry waits for another thread (%d functions, %d external callees)" % (len(reach_w), len(ext_w)),
+                  "a worker can wait for other threads before (or while) serving: %s (chain %s); with another number of participating threads it never gets to its loop"
+                  % ([w.split("<")[0] for w in waits[:2]], [P.chain(parent_w, w) for w in waits[:1]]), ctx.loc(P.fns[clo]))
 
     # ------------------------------------------------------------------ (1) binds reachable per worker
     nb = 0
